@@ -108,6 +108,18 @@ CLAIMED = {
              "(first definition in command-line order); tie = wild binary on generated link lines (archives, thin archives, --whole-archive, --start-lib, shared libs, weak refs).",
         technique="Coq proof (worklist invariant over all schedules; certificate checker soundness) + model/implementation correspondence on generated link lines",
         design_ref="DESIGN.md §3 C03"),
+    "C14": dict(
+        text="S1: Gallina models of RelaxationKind::apply and ElfX86_64::new_relaxation over a zipper of (bytes, offset), a decoder + effect semantics for the instruction forms involved "
+             "(legacy/REX/REX2 prefixes), and the relocation applied after the rewrite (value, range check and width from the regenerated C12 table). Theorems: for every r_type in "
+             "{GOTPCREL, GOTPCRELX, REX_GOTPCRELX, CODE_4_GOTPCRELX, GOTTPOFF, CODE_4_GOTTPOFF}, every psABI-form instruction new_relaxation rewrites, every symbol value V, place P and slot G for which "
+             "the new relocation is accepted, the rewritten instruction has the same effect and successor as the original with the slot holding V; the nine TLS rewrites (GD->LE, GD->LE large, "
+             "GD->IE, LD->LE x3, TLSDESC->LE REX/REX2, TLSDESC->IE, TLSDESC_CALL) compute TP+V / TP / V in the right register, touch nothing else and have the original length. "
+             "Partial: the EVEX (APX NDD/NF, CODE_6_GOTTPOFF) form is tied model-to-code but its semantics are not in the decoder, so it has no semantic theorem.",
+        note="Trusted: hand-written decoder/semantics (validated against objdump for legacy/REX forms; REX2 by review), flags abstracted as a function of (op,width,operands), psABI result of the "
+             "original TLS call sequences, psABI-form assumption on the relocated instruction, Check.new_value for S+A / S+A-P / TPOFF / G+A-P. The predicate is also evaluated on the "
+             "implementation's own patched bytes over a 16-value lattice, and real links are run on this host with absolute symbols at boundary values. One defect repaired (fix: R_X86_64_32S).",
+        technique="Coq proof (finite enumeration of instruction headers with symbolic fields + modular arithmetic) + model/implementation correspondence through verif_hooks::x86_64::new_relaxation + objdump/e2e validation",
+        design_ref="DESIGN.md §3 C14"),
     "C37": dict(
         text="S1 on top of C03: DT_NEEDED = the shared libraries in the verified loaded set, in command-line order. Theorems: listed iff loaded shared library; every --no-as-needed library listed; "
              "an --as-needed library listed only if some loaded file non-weakly references a name whose first definition it is; strictly increasing command-line positions (each at most once).",
